@@ -96,11 +96,17 @@ func (o Obj) Build() metav1.Object {
 			ing.Spec.Backend = &netv1beta1.IngressBackend{ServiceName: o.Default}
 		}
 		if len(o.Paths) > 0 {
-			rule := netv1beta1.IngressRule{IngressRuleValue: netv1beta1.IngressRuleValue{HTTP: &netv1beta1.HTTPIngressRuleValue{}}}
-			for _, p := range o.Paths {
-				rule.HTTP.Paths = append(rule.HTTP.Paths, netv1beta1.HTTPIngressPath{Backend: netv1beta1.IngressBackend{ServiceName: p}})
+			// a host-only rule (no HTTP section) first, then the paths spread over two rules
+			rules := []netv1beta1.IngressRule{{Host: "only.example"}, {IngressRuleValue: netv1beta1.IngressRuleValue{HTTP: &netv1beta1.HTTPIngressRuleValue{}}},
+				{IngressRuleValue: netv1beta1.IngressRuleValue{HTTP: &netv1beta1.HTTPIngressRuleValue{}}}}
+			for j, p := range o.Paths {
+				r := 1 + j%2
+				rules[r].HTTP.Paths = append(rules[r].HTTP.Paths, netv1beta1.HTTPIngressPath{Backend: netv1beta1.IngressBackend{ServiceName: p}})
 			}
-			ing.Spec.Rules = []netv1beta1.IngressRule{rule}
+			if len(rules[2].HTTP.Paths) == 0 {
+				rules = rules[:2]
+			}
+			ing.Spec.Rules = rules
 		}
 		return ing
 	}
